@@ -150,9 +150,11 @@ impl HttpProtocol {
 impl From<::http::Version> for HttpProtocol {
     fn from(version: ::http::Version) -> Self {
         match version {
-            ::http::Version::HTTP_11 | ::http::Version::HTTP_10 => Self::Http1,
             ::http::Version::HTTP_2 => Self::Http2,
-            _ => panic!("Unsupported HTTP protocol"),
+            // HTTP/0.9, HTTP/1.0 and HTTP/1.1 are carried by the HTTP/1.1 protocol. Any other
+            // version (HTTP/3 is not supported) falls back to HTTP/1.1 rather than panicking
+            // in the caller's task.
+            _ => Self::Http1,
         }
     }
 }
